@@ -49,10 +49,16 @@ def sig_snapshot(sig):
 
 
 def containers(sig):
+    """Identities of every provenance container of a signature: the map, the lists and depth map in it, and the per-parameter
+    lists / depth maps (empty hand-outs excluded: parameters without provenance may share an empty default)."""
     src = sig.sources
     ids = {id(src)}
     for v in src.values():
         ids.add(id(v))
+    for p in sig.parameters.values():
+        for c in (getattr(p, 'sources', None), getattr(p, 'source_depths', None)):
+            if c:
+                ids.add(id(c))
     return ids
 
 
